@@ -15,7 +15,7 @@ SPEC = {
          "eval": "fun c => let '(s, w, d, v, p, r) := c in check_qs s w d v p r", "per_shard": 25},
     ],
     "classes": CLASSES,
-    "n_quick": 1600, "n_thorough": 15000,
+    "n_quick": 1600, "n_thorough": 6400,
     "level": "proof",
     "what_violation": "a subscription response carries errors of another event / loses its own / a streamed query does not yield exactly execute's response",
     "rule": ("derive-built #[Subscription] root (5 root fields: non-null and nullable object items, a leaf item) over the schema family of "
